@@ -262,20 +262,23 @@ pub fn run(cases_path: &str, out_path: &str, tier: &str, seed: u64) {
             "ops" => {
                 nontrivial.fetch_add(1, std::sync::atomic::Ordering::Relaxed);
                 let differing: Vec<&str> = c["differing"].as_array().unwrap().iter().map(|x| x.as_str().unwrap()).collect();
+                // one-pass packets of both versions: v3 (v4 signer) and v6 (v6 signer)
+                for (opsv, ksec, kpub) in [(3u8, &k4, &p4), (6u8, &k6, &p6)] {
                 let r = guard(|| -> Result<&'static str, String> {
                     let data = b"line one\r\nline two\r\n".to_vec();
                     let mut b = MessageBuilder::from_bytes("", data.clone());
-                    b.sign(&k4.primary_key, Password::empty(), HashAlgorithm::Sha256);
+                    b.sign(&ksec.primary_key, Password::empty(), HashAlgorithm::Sha256);
                     let bytes = b.to_vec(rng(seed)).map_err(|e| e.to_string())?;
                     let mut ps = deframe_stream(&bytes)?;
-                    if ps.len() != 3 || ps[0].tag != 4 || ps[0].body[0] != 3 {
+                    if ps.len() != 3 || ps[0].tag != 4 || ps[0].body[0] != opsv {
                         return Err("unexpected builder output".into());
                     }
                     for d in &differing {
                         match *d {
                             "typ" => ps[0].body[1] ^= 1,
                             "hash" => ps[0].body[2] = 10,
-                            _ => ps[0].body[3] = 1,
+                            // (another algorithm whose signature values have the same shape cannot be told apart by parsing)
+                            _ => ps[0].body[3] = if opsv == 6 { 22 } else { 1 },
                         }
                     }
                     let mut out = Vec::new();
@@ -288,10 +291,11 @@ pub fn run(cases_path: &str, out_path: &str, tier: &str, seed: u64) {
                     if m.read_to_end(&mut got).is_err() {
                         return Ok("err");
                     }
-                    Ok(if m.verify(&p4).is_ok() { "ok" } else { "err" })
+                    Ok(if m.verify(kpub).is_ok() { "ok" } else { "err" })
                 });
                 let got = match &r { Out::Ok(g) => g.to_string(), o => o.class().to_string() };
-                sink.put(rec("c15.ops", json!({"ci": ci, "differing": differing, "expect": expect}), got == expect, "ops", json!({"got": got, "detail": r.detail()})));
+                sink.put(rec("c15.ops", json!({"ci": ci, "ops_version": opsv, "differing": differing, "expect": expect}), got == expect, "ops", json!({"got": got, "detail": r.detail()})));
+                }
             }
             "subpacket" => {
                 let known = c["known"].as_bool().unwrap();
@@ -409,6 +413,34 @@ pub fn run(cases_path: &str, out_path: &str, tier: &str, seed: u64) {
                 let got = match &r { Out::Ok(g) => g.to_string(), Out::Err(e) if e.starts_with("construct") => "err".into(), o => o.class().to_string() };
                 let ok = got == expect || (expect == "dontcare" && (got == "ok" || got == "err"));
                 sink.put(rec("c15.keygrammar", json!({"ci": ci, "primary": pv, "subkey": sv, "repr": repr, "expect": expect}), ok, "keygrammar", json!({"got": got, "detail": r.detail()})));
+            }
+            "keygrammar_legacy" => {
+                nontrivial.fetch_add(1, std::sync::atomic::Ordering::Relaxed);
+                let pv = c["primary"].as_u64().unwrap() as u8;
+                let ws = c["with_subkey"] == true;
+                let r = guard(|| -> Result<&'static str, String> {
+                    // a legacy RSA public primary key packet: version | created | validity days | algorithm | n | e
+                    let mut n = vec![0u8; 64]; { use rand::RngCore; rng(seed ^ 0x15A).fill_bytes(&mut n); }
+                    n[0] |= 0x80;
+                    n[63] |= 1;
+                    let mut body = vec![pv];
+                    body.extend_from_slice(&0x3A00_0000u32.to_be_bytes());
+                    body.extend_from_slice(&[0, 0, 1]);
+                    body.extend_from_slice(&512u16.to_be_bytes());
+                    body.extend_from_slice(&n);
+                    body.extend_from_slice(&17u16.to_be_bytes());
+                    body.extend_from_slice(&[1, 0, 1]);
+                    let mut cert = frame(true, 6, &[Chunk::Fixed(body.len())], &body, body.len(), false);
+                    if ws {
+                        let pk = p4.to_bytes().map_err(|e| e.to_string())?;
+                        let ps = deframe_stream(&pk)?;
+                        let at = ps.iter().position(|p| p.tag == 14).ok_or("no subkey in the v4 certificate")?;
+                        for p in &ps[at..] { cert.extend(frame(true, p.tag, &[Chunk::Fixed(p.body.len())], &p.body, p.body.len(), false)); }
+                    }
+                    Ok(match SignedPublicKey::from_bytes(&cert[..]) { Ok(k) if k.public_subkeys.is_empty() == !ws => "ok", Ok(_) => "err", Err(_) => "err" })
+                });
+                let got = match &r { Out::Ok(g) => g.to_string(), o => o.class().to_string() };
+                sink.put(rec("c15.keygrammar_legacy", json!({"ci": ci, "primary": pv, "with_subkey": ws, "expect": expect}), got == expect, "keygrammar", json!({"got": got, "detail": r.detail()})));
             }
             "binding" => {
                 let can_sign = c["can_sign"].as_bool().unwrap();
